@@ -768,12 +768,11 @@ func runC10(e *Engine, r *Report, tier string) {
 			if m.Run == nil {
 				continue
 			}
+			// the methods that write the allowance family (staking 0x90), whatever the writer is called
 			for f := range e.Reach([]*ssa.Function{m.Run}, func(x *ssa.Function) bool { return !isFx(x) }) {
-				allCalls(f, func(c ssa.CallInstruction) {
-					if callName(c) == "SetAllowance" {
-						writers[m.Name] = true
-					}
-				})
+				if isFx(f) && e.HasTransEffect(f, "staking", "90", "set") {
+					writers[m.Name] = true
+				}
 			}
 		}
 		for _, o := range sub09.Obls {
